@@ -44,27 +44,81 @@ def build_expr(e, xs):
     raise ValueError(k)
 
 
-def build_con(m, c, xs):
+ANY_STYLES = ["list", "tuple", "gen", "map", "reversed", "iter", "dictvalues", "scratch"]
+SIZED_STYLES = ["list", "tuple", "dictvalues", "scratch"]  # no_overlap / cumulative call len() on their arguments
+
+
+def present(items, style, scratch):
+    """The same collection presented to a constructor in different ways (the constraint means its
+    contents at the time of the call)."""
+    items = list(items)
+    if style in (None, "list"):
+        return items
+    if style == "tuple":
+        return tuple(items)
+    if style == "gen":
+        return (x for x in items)
+    if style == "map":
+        return map(lambda x: x, items)
+    if style == "reversed":
+        return reversed(items[::-1])
+    if style == "iter":
+        return iter(items)
+    if style == "dictvalues":
+        return {i: x for i, x in enumerate(items)}.values()
+    if style == "scratch":  # a list the caller reuses: cleared and refilled after add()
+        scratch.clear()
+        scratch.extend(items)
+        return scratch
+    raise ValueError(style)
+
+
+def styles_for(c, rng):
+    """A random presentation style for a collection-taking constructor (None for the others)."""
+    if c[0] in ("alldiff", "sumeq", "sumle", "sumge", "circuit"):
+        return rng.choice(ANY_STYLES)
+    if c[0] in ("noov", "cum"):
+        return rng.choice(SIZED_STYLES)
+    return None
+
+
+def build_con(m, c, xs, style=None, scratch=None):
     k = c[0]
+    scratch = [] if scratch is None else scratch
+    P = lambda items: present(items, style, scratch)  # noqa: E731
     if k == "==":
         return build_expr(c[1], xs) == build_expr(c[2], xs)
     if k == "!=":
         return build_expr(c[1], xs) != build_expr(c[2], xs)
     if k == "alldiff":
-        return m.all_different([xs[i] for i in c[1]])
+        return m.all_different(P([xs[i] for i in c[1]]))
     if k == "sumeq":
-        return m.sum_eq([xs[i] for i in c[1]], c[2])
+        return m.sum_eq(P([xs[i] for i in c[1]]), c[2])
     if k == "sumle":
-        return m.sum_le([xs[i] for i in c[1]], c[2])
+        return m.sum_le(P([xs[i] for i in c[1]]), c[2])
     if k == "sumge":
-        return m.sum_ge([xs[i] for i in c[1]], c[2])
+        return m.sum_ge(P([xs[i] for i in c[1]]), c[2])
     if k == "circuit":
-        return m.circuit([xs[i] for i in c[1]])
+        return m.circuit(P([xs[i] for i in c[1]]))
     if k == "noov":
-        return m.no_overlap([xs[i] for i in c[1]], list(c[2]))
+        # (one scratch list per argument position)
+        return m.no_overlap(P([xs[i] for i in c[1]]), present(c[2], style if style != "scratch" else "list", None))
     if k == "cum":
-        return m.cumulative([xs[i] for i in c[1]], list(c[2]), list(c[3]), c[4])
+        q = style if style != "scratch" else "list"
+        return m.cumulative(P([xs[i] for i in c[1]]), present(c[2], q, None), present(c[3], q, None), c[4])
     raise ValueError(k)
+
+
+def add_cons(m, xs, cons, styles, scratch, built=None):
+    for j, c in enumerate(cons):
+        st = styles[j] if styles and j < len(styles) else None
+        t = build_con(m, c, xs, st, scratch)
+        if built is not None:
+            built.append(t)
+        m.add(t)
+        if st == "scratch":  # the caller reuses its list
+            scratch.clear()
+            scratch.extend(xs)
 
 
 def build_model(case):
@@ -74,10 +128,7 @@ def build_model(case):
     hidden = set(case.get("hidden") or [])
     xs = [m.int_var(lb, ub) if i in hidden else m.int_var(lb, ub, f"x{i}") for i, (lb, ub) in enumerate(case["vars"])]
     built = []
-    for c in case["cons"]:
-        t = build_con(m, c, xs)
-        built.append(t)
-        m.add(t)
+    add_cons(m, xs, case["cons"], case.get("styles"), [], built)
     return m, xs, built
 
 
@@ -131,7 +182,7 @@ def proto_con(t, idx):
 
 
 def proto_model(case):
-    m, xs, built = build_model(case)
+    m, xs, built = build_model({k: v for k, v in case.items() if k != "styles"})
     idx = {id(x): i for i, x in enumerate(xs)}
     return [proto_con(t, idx) for t in built]
 
@@ -193,10 +244,10 @@ def _alarm(signum, frame):
     raise SatTimeout()
 
 
-def impl(case):
-    """Build the model with the real operators, solve it, capture what SATEncoder hands to solve_sat."""
+def solve_observed(m, xs, case, hidden=()):
+    """One observed `Model.solve`: status, returned assignments (in the order of `xs`), what SATEncoder hands
+    to solve_sat, what solve_sat returned, whether a SATEncoder was created."""
     import solvor.cp_encoder as enc_mod
-    m, xs, _ = build_model(case)
     names = [x.name for x in xs]
     litmap = [[[v, b] for v, b in x.bool_vars.items()] for x in xs]
     cap = {"cnf": None, "assumptions": [], "sat_models": None, "sat_status": None, "sat_timeout": False,
@@ -230,7 +281,6 @@ def impl(case):
 
     enc_mod.solve_sat = wrapper
     enc_mod.SATEncoder.__init__ = init_wrapper
-    out = dict(cap)
     try:
         kw = {"solution_limit": case["limit"], "solver": case["solver"]}
         if case.get("hints") is not None:
@@ -246,8 +296,7 @@ def impl(case):
         enc_mod.solve_sat = real
         enc_mod.SATEncoder.__init__ = real_init
     out = dict(cap)
-
-    hidden = set(case.get("hidden") or [])
+    hidden = set(hidden)
 
     def canon(sol):
         if not isinstance(sol, dict):
@@ -264,6 +313,62 @@ def impl(case):
         sols = None
     out.update({"status": r.status.name, "sols": sols, "litmap": litmap})
     return out
+
+
+def impl(case):
+    """Build the model with the real operators, solve it, capture what SATEncoder hands to solve_sat."""
+    m, xs, _ = build_model(case)
+    return solve_observed(m, xs, case, case.get("hidden") or [])
+
+
+def impl_history(hcase):
+    """A history on ONE Model object: every round declares new variables, adds constraints (each collection
+    argument in its presentation style) and solves.  Returns one pool-style outcome per round."""
+    import traceback
+    from solvor.cp import Model
+    m = Model()
+    xs, scratch, outs = [], [], []
+    for rnd in hcase["history"]:
+        try:
+            for lb, ub in rnd.get("new_vars") or []:
+                xs.append(m.int_var(lb, ub, f"x{len(xs)}"))
+            add_cons(m, xs, rnd.get("cons") or [], rnd.get("styles"), scratch)
+            outs.append(("ok", solve_observed(m, xs, rnd)))
+        except SatTimeout:
+            raise
+        except BaseException as e:  # noqa: BLE001 - the error kind is an observable
+            outs.append(("err", f"{type(e).__name__}: {e}"[:300] + "\n" + traceback.format_exc(limit=3)[-400:]))
+            break
+    return outs
+
+
+def snapshots(hcase):
+    """The model AS IT IS at each solve of a history, as plain cases."""
+    vars_, cons, snaps = [], [], []
+    for r, rnd in enumerate(hcase["history"]):
+        vars_ = vars_ + [list(v) for v in (rnd.get("new_vars") or [])]
+        cons = cons + list(rnd.get("cons") or [])
+        snaps.append({"vars": vars_, "cons": cons, "hints": rnd.get("hints"), "limit": rnd["limit"],
+                      "solver": rnd["solver"], "family": "history", "round": r})
+    return snaps
+
+
+def flatten_histories(hcases, houts):
+    """(plain snapshot cases, pool-style outcomes, owner index) for all rounds of all histories."""
+    cases, outs, owner = [], [], []
+    for i, (h, ho) in enumerate(zip(hcases, houts)):
+        snaps = snapshots(h)
+        for r, sc in enumerate(snaps):
+            if ho[0] != "ok":
+                o = ho
+            elif r < len(ho[1]):
+                o = tuple(ho[1][r])
+            else:
+                break  # an earlier round raised: later rounds were not run
+            cases.append(sc)
+            outs.append(o)
+            owner.append(i)
+    return cases, outs, owner
 
 
 # ---------------------------------------------------------------------------
@@ -551,6 +656,66 @@ def gen_routing(rng, big_ok=True):
     return vars_, cons, plant, (d + 1) ** k > 30000
 
 
+def gen_history(rng, solvers=("auto", "dfs", "sat"), big=False):
+    """A history on one Model: 2-3 rounds; each round declares 0-2 new variables, adds 0-2 constraints (over
+    all variables declared so far, collection arguments in random presentation styles) and solves.  Half of
+    the histories follow the pattern "a solve that creates auxiliary variables (sum / linear relation over >= 3
+    variables / circuit) via SAT, then NEW variables and constraints on them, then SAT again"."""
+    rounds = rng.choice([2, 2, 3])
+    aux_first = rng.random() < 0.5
+    nv = rng.choice([3, 3, 4]) if aux_first else rng.choice([1, 2, 3])
+    vars_ = [list(rng.choice(DOMAINS[:9])) for _ in range(nv)]
+    plant = [rng.randint(lb, ub) for lb, ub in vars_]
+    hist = []
+
+    def some_cons(n, new_from=None):
+        cons = []
+        for _ in range(n):
+            k = rng.choice(["rel", "rel", "simple", "simple", "alldiff", "sumeq", "sumle", "sumge", "noov", "cum"])
+            if k == "rel":
+                c = gen_rel(rng, vars_, plant)
+            elif k == "simple":
+                c = gen_simple(rng, vars_, plant)
+            else:
+                c = gen_global(rng, vars_, plant, k, big)
+            if new_from is not None and rng.random() < 0.6:  # tie a new variable to the rest
+                j = rng.randrange(new_from, len(vars_))
+                i = rng.randrange(len(vars_))
+                c = rng.choice([["!=", ["v", j], ["v", i]], ["alldiff", sorted({i, j})], ["sumge", [j, i], plant[i] + plant[j] - 1],
+                                ["==", ["v", j], ["c", plant[j]]]])
+            cons.append(c)
+        return cons
+
+    for r in range(rounds):
+        if r == 0:
+            new_vars = [list(v) for v in vars_]
+            if aux_first:
+                idx = rng.sample(range(nv), 3)
+                tot = sum(plant[i] for i in idx)
+                first = rng.choice([
+                    ["sumeq", idx, tot], ["sumle", idx, tot], ["sumge", idx, tot],
+                    ["==", ["+", ["+", ["v", idx[0]], ["v", idx[1]]], ["v", idx[2]]], ["c", tot]],
+                    ["!=", ["+", ["v", idx[0]], ["+", ["v", idx[1]], ["v", idx[2]]]], ["c", tot + 1]],
+                ])
+                cons = [first] + some_cons(rng.choice([0, 0, 1]))
+                solver = rng.choice(["sat", "sat", "auto"])
+            else:
+                cons = some_cons(rng.choice([0, 1, 1, 2]))
+                solver = rng.choice(solvers)
+        else:
+            k = rng.choice([1, 1, 2]) if (aux_first and r == 1) else rng.choice([0, 0, 1, 2])
+            start = len(vars_)
+            new_vars = [list(rng.choice(DOMAINS[:9])) for _ in range(k)]
+            vars_.extend(new_vars)
+            plant.extend(rng.randint(lb, ub) for lb, ub in new_vars)
+            cons = some_cons(rng.choice([0, 1, 1, 2]), new_from=start if k else None)
+            solver = rng.choice(["sat", "sat", "auto"]) if aux_first else rng.choice(solvers)
+        styles = [styles_for(c, rng) if rng.random() < 0.7 else None for c in cons]
+        hist.append({"new_vars": new_vars, "cons": cons, "styles": styles, "solver": solver,
+                     "limit": rng.choice([1, 3, 100, 100]), "hints": None})
+    return {"history": hist}
+
+
 def gen_scaled(rng):
     """Shape family with EQUAL non-unit coefficients on two variables and constants that are / are not
     divisible by the coefficient: k*x +- c ~ k*y +- d, k*(x - y) ~ c, k*x - k*y ~ c, (x+x) ~ (y+y) + c,
@@ -704,8 +869,14 @@ def shrink_candidates(case):
         out.append(d)
 
     cons = case["cons"]
-    for i in range(len(cons)):  # drop a constraint
-        mk(cons=cons[:i] + cons[i + 1:])
+    styles = case.get("styles")
+    if styles and any(styles):
+        mk(styles=None)
+    for i in range(len(cons)):  # drop a constraint (and its presentation style)
+        if styles:
+            mk(cons=cons[:i] + cons[i + 1:], styles=styles[:i] + styles[i + 1:])
+        else:
+            mk(cons=cons[:i] + cons[i + 1:])
     if case.get("hints"):
         mk(hints=None)
         for k in case["hints"]:
